@@ -246,7 +246,7 @@ def run(ctx):
     failed = []
     for (name, H, W, base, conn) in cfgs:
         mc(ctx, failed, "Polygonize", dict(spec="Spec", invariants=INV, constants=dict(
-            H=H, W=W, VALS=set(base), CONN=conn, MUT="none")), name, coverage=(name == "3x3_b_c8"))
+            H=H, W=W, VALS=set(base), CONN=conn, MUT="none")), name, coverage=(name == "3x3_b_c8"), timeout=4 * 3600)
     for mut, H, W, conn, inv in (("nochain", 3, 4, 4, "RegionsAreComponents"),
                                  ("nose", 3, 3, 8, "RegionsAreComponents"),
                                  ("straightfirst", 3, 3, 4, "LosslessHolds"),
